@@ -236,3 +236,42 @@ def shared_defaults(ctx, rule, prefixes):
                             "the default `%s` is one object shared by every call and it is %s: what one call / instance puts into it is seen by the next" % (dtxt, how))
     ctx.hold(rule, where("", "", None), "parameter defaults in %s" % ", ".join(prefixes)[:80], "%d defaults examined: none is a shared object that gets mutated" % total)
     return total
+
+
+def stateless_after_init(ctx, rule, cls, allowed=(), why=""):
+    """objects that serve every call of a layer (the codec's encoder / decoder): outside the constructor no method
+    mutates or rebinds an instance attribute, directly or through a local alias - whatever a call that fails half-way
+    left behind would be seen by the next call"""
+    from .repo import inline_self_aliases
+    repo = ctx.repo
+    n = 0
+    bad = []
+    for k in repo.mro(cls):
+        for name, f in sorted(k.methods.items()):
+            if name == "__init__":
+                continue
+            n += 1
+            f2, _ = inline_self_aliases(f)
+            for x in ast.walk(f2):
+                attr = None
+                if isinstance(x, ast.Call) and isinstance(x.func, ast.Attribute) and x.func.attr in (MUTATORS - PURE_READS) \
+                        and isinstance(x.func.value, ast.Attribute) and isinstance(x.func.value.value, ast.Name) and x.func.value.value.id == "self":
+                    attr = x.func.value.attr
+                elif isinstance(x, (ast.Assign, ast.AugAssign, ast.Delete)):
+                    for t in ([x.target] if isinstance(x, ast.AugAssign) else x.targets):
+                        base = t
+                        sub = False
+                        while isinstance(base, ast.Subscript):
+                            base = base.value
+                            sub = True
+                        # element stores / deletions and augmented updates of a container; setting a plain flag is session state
+                        if (sub or isinstance(x, ast.AugAssign)) and isinstance(base, ast.Attribute) and isinstance(base.value, ast.Name) and base.value.id == "self":
+                            attr = base.attr
+                if attr is not None and attr not in allowed:
+                    bad.append((k, name, attr, x))
+    for k, name, attr, x in bad:
+        ctx.violate(rule, where(k.relpath, "%s.%s" % (k.name, name), getattr(x, "lineno", None)), "self.%s changed in %s.%s" % (attr, k.name, name),
+                    "%s keeps per-call data in the instance attribute `%s` (%s): it serves every call, so what a call that raised half-way left there is prepended to / mixed into the next one%s" % (cls.name, attr, ast.unparse(x)[:50], why))
+    if not bad:
+        ctx.hold(rule, where(cls.relpath, cls.name, None), "%s is stateless between calls" % cls.name, "%d method(s): no instance attribute is changed outside the constructor" % n)
+    return n
